@@ -83,6 +83,8 @@ def worker(unit, emit):
             w = ''.join(w)
             if row.get('domain_re') and not re.search(row['domain_re'], w):
                 continue
+            if row.get('p3_domain_re') and not re.search(row['p3_domain_re'], w):
+                continue
             pl, lo2, n2 = CONV[conv](w)
             g = lib.call(f, pl)
             if g['k'] == 'ret' and g['t'] == 'str':
